@@ -871,11 +871,11 @@ def run_documents(ctx, cases, fail_cls, label):
     # ---- truncated / mutated files: outcome class; structure and cursor when accepted
     pool_m = [c for c in dlive if len(c["w"][1]) <= 60000]
     rng.shuffle(pool_m)
-    pool_m = pool_m[: (6 if quick else 120)]
+    pool_m = pool_m[: (6 if quick else 80)]
     mreqs, mexp = [], []
     for c in pool_m:
         b = c["w"][1]
-        for how, bb in mutations(rng, b, 5 if quick else 14, offsets=structural_offsets(b)):
+        for how, bb in mutations(rng, b, 5 if quick else 12, offsets=structural_offsets(b)):
             r = cc.read_doc(bb, c["enc"])
             mreqs.append(("td.dec", "PSD", 0, c["pad"], hx(bb), 0))
             mexp.append((how, bb, c["enc"], r))
@@ -894,6 +894,9 @@ def run_documents(ctx, cases, fail_cls, label):
                 ctx.disagree("typed document (mutated file): PSD.read structure / cursor != model read",
                              {"mutation": how, "model": a[:1], "file": hx(bb)[:2000],
                               "first_difference": first_diff(canon_floats(a[1]), rt) if a[0] == "ok" else None})
+        elif r[1] == "UnicodeError" and enc != "macroman":
+            # a mutated layer / resource name that the encoding cannot decode: names are byte strings in the model (C19 owns the text encoding)
+            ctx.hist("typed_document_skipped", "mutated: name not decodable in %s (C19)" % enc)
         elif a[0] != "err" or norm_err(a[1]) != norm_err(r[1]):
             ctx.disagree("typed document (mutated file): exception class of PSD.read != model read",
                          {"mutation": how, "py": r[1], "model": a[:2], "file": hx(bb)[:2000]})
@@ -919,7 +922,7 @@ def fixture_documents(ctx):
         r = cc.read_doc(f.read_bytes())
         if r[0] != "ok":
             continue
-        for pad in ((4,) if quick else (1, 2, 4)):
+        for pad in ((4,) if (quick or f.stat().st_size > 150000) else (1, 2, 4)):
             out.append(dict(doc=copy.deepcopy(r[1]), enc="macroman", pad=pad, kind="fixture", name=f.name))
     return out
 
@@ -1119,8 +1122,8 @@ def _run(ctx):
         "from the class's generators and the fixtures; version 1/2 x padding 1/2/4), raw bytes and a payload of another class under registered "
         "keys, unregistered keys, 3-8 mutations at structural offsets of up to 600 encodings; generated documents (quick 16, thorough 120) that "
         "together carry every registered key at layer level and at document level incl. Lr16 / Lr32 with nested typed records, PSD and PSB, padding "
-        "1/2/4, five name encodings; every fixture (quick: a seeded sample of 14 below 40 kB) re-written and re-read with every registry entry "
-        "active, and read from its original bytes; 5-14 truncations / overwrites at the offsets of block signatures of up to 120 written files.")
+        "1/2/4, five name encodings; every fixture (quick: a seeded sample of 14 below 40 kB, padding 4; thorough: all, padding 1/2/4 below 150 kB and 4 above) re-written and re-read with every registry entry "
+        "active, and read from its original bytes; 5-12 truncations / overwrites at the offsets of block signatures of up to 80 written files (per group: generated, fixtures).")
     ctx.extra["typed_phase_seconds"] = round(time.time() - t0, 1)
     if ctx.tier == "thorough":
         prev = ctx.extra.get("leanchecker")
